@@ -1,3 +1,4 @@
 pub mod net_chain;
+pub mod net_corridor;
 pub mod powertrain;
 pub mod train;
